@@ -583,6 +583,17 @@ theorem gen_scan_lawful_instance {C : Type} :
       univ univ :=
   gen_scan_lawful (.cons (Leaves.affine_lawful _ (by norm_num)) (.cons (Leaves.affine_lawful _ (by norm_num)) (.nil _)))
 
+/-- **the generated `Vmap`** (methods translated from `jax_transforms.py`; `eqx.filter_vmap` as in `Model/JaxTrWorld.lean`) with a
+broadcast condition is a lawful bijection of the declared shape `axis_size :: cshape` — mapped (`in_axes`) or broadcast
+(`axis_size`) parameters — whenever the per-call bijections are lawful on `cshape`; `gen_vmap_roundtrip` (C08) is the pointwise
+statement for a condition mapped along any axis. -/
+theorem gen_vmap_lawful {κ : Type} [Inhabited κ] (v : JaxTr.Vmap κ ℝ) (cs : List Nat) (hx0 : v.in_axes.2.1 = 0)
+    (hc : v.in_axes.2.2 = none)
+    (hm : (JaxTr.mapModule v.in_axes.1 v.bijection v.axis_size).length = v.axis_size) (hpos : 0 < v.axis_size)
+    (hb : ∀ b ∈ JaxTr.mapModule v.in_axes.1 v.bijection v.axis_size, b.toBij.Lawful (ArrComb.WS cs) (ArrComb.WS cs)) :
+    v.toBij.Lawful (ArrComb.WS (v.axis_size :: cs)) (ArrComb.WS (v.axis_size :: cs)) :=
+  JaxTrProofs.vmap_lawful v cs hx0 hc hm hpos hb
+
 end JaxTransformsGen
 
 
